@@ -102,6 +102,17 @@ def oracle(c, o):
                 break
         if o["status"] == 0 and o["primary"] != 0 and o["heap"] != 0:
             out.append(dict(clause="with no end_time the run continues while a non-daemon event is pending", primary=o["primary"]))
+        if o["status"] == 0:
+            # independent of the engine's own counter: every live NON-DAEMON event that was created has been delivered
+            delivered = {p[6] for p in dels}
+            cancelled = set(o["cancelled_ever"])
+            for seq, at, t, daemon, target in o["created"]:
+                if daemon or seq in cancelled or (at is not None and t < at) or (at is None and t < c["start"]):
+                    continue
+                if seq not in delivered:
+                    out.append(dict(clause="with no end_time the run continues while a non-daemon event is pending (a live non-daemon event was never delivered)",
+                                    seq=seq, time=t))
+                    break
     return out[:1]
 
 
